@@ -35,14 +35,16 @@ slots (`kvs.length ≤ 2^k`: every load factor, *including the completely full t
 1. inserting them with the standard's double hashing (`Spec.Index.build`) succeeds — this is
    where "an odd stride visits every slot" is needed — and
 2. for every parsed index `ix` whose `hash_ids`/`hash_rows` arrays hold the resulting slot
-   table (either byte order) and every non-zero `id`: `UnitIndex::find` returns exactly what a
-   linear scan of `kvs` returns; `some row` iff `(id, row)` is listed, `none` iff `id` is absent. -/
+   table (either byte order) and EVERY `id` — including 0, the unused-slot marker, which is never
+   present (`fix: UnitIndex::find reported the ID 0 as present`) —: `UnitIndex::find` returns
+   exactly what a linear scan of `kvs` returns; `some row` iff `(id, row)` is listed, `none` iff
+   `id` is absent. -/
 theorem index_find_iff_present (k : Nat) (kvs : List (Nat × Nat))
     (hnz : ∀ kv, kv ∈ kvs → kv.1 ≠ 0)
     (hdist : kvs.Pairwise (fun a b => a.1 ≠ b.1))
     (hroom : kvs.length ≤ 2 ^ k) :
     ∃ t, build k kvs = some t ∧
-      ∀ (e : Endian) (ix : UnitIndex), Encodes e k t ix → ∀ id, id ≠ 0 →
+      ∀ (e : Endian) (ix : UnitIndex), Encodes e k t ix → ∀ id,
         find e ix id = scan kvs id ∧
         (∀ row, find e ix id = some row ↔ (id, row) ∈ kvs) ∧
         (find e ix id = none ↔ ∀ row, (id, row) ∉ kvs) := by
@@ -57,10 +59,17 @@ theorem index_find_iff_present (k : Nat) (kvs : List (Nat × Nat))
   refine ⟨t, ht, ?_⟩
   obtain ⟨hinv, hc⟩ := buildFrom_spec k kvs (emptyTable k) t (inv_empty k) hdist
     (by intro kv hkv p _; simp only [slotId, hempty]; exact fun h => hnz kv hkv h.symm) ht
-  intro e ix henc id hid
+  intro e ix henc id
   have hiff : ∀ row, find e ix id = some row ↔ (id, row) ∈ kvs := by
     intro row
-    rw [find_eq_lookup e k t ix henc id, lookup_iff k t hinv id hid row, hc id row hid]
+    by_cases hid : id = 0
+    · -- the key 0 is never stored and never found
+      subst hid
+      rw [find_zero]
+      constructor
+      · intro h; simp at h
+      · intro hm; exact absurd rfl (hnz (0, row) hm)
+    rw [find_eq_lookup e k t ix henc id hid, lookup_iff k t hinv id hid row, hc id row hid]
     constructor
     · rintro (⟨p, _, hp⟩ | hm)
       · rw [hempty] at hp
@@ -79,17 +88,18 @@ theorem index_find_iff_present (k : Nat) (kvs : List (Nat × Nat))
 /-- **The same, stated on the bytes of a `.debug_cu_index` / `.debug_tu_index` section.**  If the
 section is a 16-byte header followed by the signatures and then the row numbers of the slot table
 built from `kvs` (signatures `< 2^64`, rows `< 2^32`), and `UnitIndex::parse` accepts it with
-`slot_count = 2^k`, then `find` on the parsed index is the linear scan of `kvs`. -/
+`slot_count = 2^k`, then `find` on the parsed index is the linear scan of `kvs`, for every `id`
+(0 included). -/
 theorem index_find_on_bytes (k : Nat) (kvs : List (Nat × Nat))
     (hnz : ∀ kv, kv ∈ kvs → kv.1 ≠ 0 ∧ kv.1 < 2 ^ 64 ∧ kv.2 < 2 ^ 32)
     (hdist : kvs.Pairwise (fun a b => a.1 ≠ b.1)) (hroom : kvs.length ≤ 2 ^ k) :
     ∃ t, build k kvs = some t ∧
       ∀ (e : Endian) (hdr tail input : Bytes) (ix : UnitIndex), hdr.length = 16 →
         input = hdr ++ encIds e t ++ encRows e t ++ tail → Index.parse e input = .ok ix →
-        ix.slotCount = 2 ^ k → ∀ id, id ≠ 0 → find e ix id = scan kvs id := by
+        ix.slotCount = 2 ^ k → ∀ id, find e ix id = scan kvs id := by
   obtain ⟨t, ht, hfind⟩ := index_find_iff_present k kvs (fun kv h => (hnz kv h).1) hdist hroom
   refine ⟨t, ht, ?_⟩
-  intro e hdr tail input ix hhdr hin hp hslots id hid
+  intro e hdr tail input ix hhdr hin hp hslots id
   obtain ⟨hlen, hsl⟩ := buildFrom_slots k kvs (emptyTable k) t (by simp [emptyTable]) ht
   have hb : ∀ kv, kv ∈ t → kv.1 < 2 ^ 64 ∧ kv.2 < 2 ^ 32 := by
     intro kv hkv
@@ -98,18 +108,24 @@ theorem index_find_on_bytes (k : Nat) (kvs : List (Nat × Nat))
     rcases hsl q with h0 | hm
     · rw [hs, emptyTable, slot_replicate] at h0; rw [h0]; decide
     · rw [hs] at hm; exact (hnz kv hm).2
-  exact (hfind e ix (encodes_of_parse e input ix hp k t hlen hslots hb hdr tail hhdr hin) id hid).1
+  exact (hfind e ix (encodes_of_parse e input ix hp k t hlen hslots hb hdr tail hhdr hin) id).1
 
-/-- **Known finding C17-1 (witness).**  The hypothesis `id ≠ 0` above cannot be dropped: 0 is the
-unused-slot marker, and `find` tests "signature matches" before "slot unused", so the key 0 —
-which can never be stored — is reported as found, at the (invalid) row 0 of the first unused slot
-of its probe sequence.  Here: a one-slot table without any unit.  (`DwarfPackage::find_cu` then
-fails with `InvalidIndexRow(0)` instead of returning `None`.) -/
+/-- **The key 0 is never found** — on any index whatsoever (any bytes, any slot count): 0 marks an
+unused slot and cannot be a present key.  (Regression of the repaired finding C17-1: before
+`fix: UnitIndex::find reported the ID 0 as present`, `find(0)` returned `Some(0)`, the row field
+of the first unused slot on its probe sequence, and `DwarfPackage::find_cu(DwoId(0))` failed
+with `InvalidIndexRow(0)` instead of returning `None`.) -/
+theorem find_zero_id_absent (e : Endian) (ix : UnitIndex) :
+    find e ix 0 = none ∧ (findN e ix 0).2 = 0 := by
+  simp [find, findN]
+
+/-- the former witness of C17-1 (a one-slot table whose only slot is unused), now as a
+regression: `find(0)` is `None` -/
 theorem find_zero_id_witness :
     ∃ ix, Index.parse .little
         [2, 0, 0, 0, 0, 0, 0, 0, 0, 0, 0, 0, 1, 0, 0, 0, 0, 0, 0, 0, 0, 0, 0, 0, 0, 0, 0, 0] = .ok ix ∧
-      find .little ix 0 = some 0 ∧ Index.sections .little ix 0 = .err .rInvalidIndexRow := by
-  refine ⟨_, rfl, by decide, by decide⟩
+      ix.slotCount = 1 ∧ find .little ix 0 = none := by
+  refine ⟨_, rfl, rfl, by decide⟩
 
 /-- **`find` terminates within `slot_count` probes for ANY index** — whatever the bytes of the
 hash arrays are (full tables without an empty slot, tables not built by insertion, zero slots,
